@@ -143,6 +143,11 @@ def check(case, exclude=None):
         region.append("fold_once_region")
         if ex_fold:
             return {"excluded": "fold-once", "classes": region + ["excluded_fold_once"], "nontrivial": False}
+    if len(set(N)) > 1:
+        # two-step history on one crystal object: an earlier reduction of a different mesh with the same number of points
+        # (the divisions rotated) must not influence the reduction checked below
+        crys.reducekptmesh(crys.fullkptmesh(tuple(N[1:] + N[:1])))
+        region.append("preceded_by_other_mesh")
     kfull = crys.fullkptmesh(tuple(N))
     require(isinstance(kfull, np.ndarray) and kfull.shape == (nk, d), lambda: "fullkptmesh(%s) returned shape %s" % (N, getattr(kfull, "shape", None)))
     kfull = np.array(kfull)
